@@ -206,6 +206,21 @@ Theorem C20_merge_heap_refines :
 Proof. exact (@merge_heap_refines). Qed.
 Print Assumptions C20_merge_heap_refines.
 
+(* Config.__init__ = three merges one after the other on the same heap: every object that
+   existed before is unchanged, the three slots are three distinct NEW objects (one per
+   documented section), and a later merge never touches the result of an earlier one *)
+Theorem C20_config_init_preserves_heap :
+  forall (V : Type) (h : heap V) (roots : layer_refs) (ty syn : str) (h' : heap V) (rs : list (str * ref)),
+    config_init_heap h roots ty syn = Some (h', rs) ->
+    (forall a, a < next_ref h -> heap_get h' a = heap_get h a) /\
+    map fst rs = init_sections /\
+    Forall (fun sr => next_ref h <= snd sr /\ heap_get h (snd sr) = None) rs /\
+    NoDup (map snd rs) /\
+    Forall (fun sr => exists hi hi', merged_data_heap hi roots ty syn (fst sr) = Some (hi', snd sr) /\
+                                     heap_get h' (snd sr) = heap_get hi' (snd sr)) rs.
+Proof. exact (@config_init_preserves_heap). Qed.
+Print Assumptions C20_config_init_preserves_heap.
+
 (* non-vacuity of the heap model, with the nastiest aliasing: the caller's config shares its
    options object (4) with DEFAULT_CONFIG, and the global config IS SYNTAX_CONFIG (1) *)
 Example C20_purity_nonvacuous :
